@@ -48,12 +48,39 @@ Definition chk_exec (c : (nat * env * list fdef * list action) * (bool * list (n
 """
 
 
-def number_features(spec: Dict[str, Any]) -> Dict[str, int]:
-    ids: Dict[str, int] = {}
-    for g in spec["groups"]:
-        for f in (g["cols"] if g["kind"] in ("root", "api") else g["features"]):
-            ids.setdefault(f, len(ids))
-    return ids
+def opt_value(opt: Optional[Dict[str, Any]]) -> Optional[str]:
+    if not opt:
+        return None
+    return str(next(iter(opt.values())))
+
+
+def instances(spec: Dict[str, Any]) -> Tuple[Dict[Tuple[str, Optional[str]], int], Dict[str, Optional[str]]]:
+    """Feature instances (name, option value) reachable from the request; the option of a requested feature propagates
+    to its inputs.  Returns ids and the option value of every requested name."""
+    defs = {n: d for g in spec["groups"] if g["kind"] == "derived" for n, d in g["features"].items()}
+    ids: Dict[Tuple[str, Optional[str]], int] = {}
+    req_opt: Dict[str, Optional[str]] = {}
+    todo: List[Tuple[str, Optional[str]]] = []
+    for r in spec["request"]:
+        name, opt = (r, None) if isinstance(r, str) else (r["name"], opt_value(r.get("opt")))
+        req_opt[name] = opt
+        todo.append((name, opt))
+    # without options every feature of the spec gets an id (as before); with options only reachable instances
+    if all(v is None for v in req_opt.values()):
+        for g in spec["groups"]:
+            for f in (g["cols"] if g["kind"] in ("root", "api") else g["features"]):
+                ids.setdefault((f, None), len(ids))
+    while todo:
+        name, opt = todo.pop()
+        if (name, opt) in ids and name not in defs:
+            continue
+        ids.setdefault((name, opt), len(ids))
+        for i in defs.get(name, {}).get("inputs", []):
+            if (i, opt) not in ids or i in defs:
+                if (i, opt) not in ids:
+                    ids[(i, opt)] = len(ids)
+                    todo.append((i, opt))
+    return ids, req_opt
 
 
 def cq_col(col: List[Optional[int]]) -> str:
@@ -72,23 +99,30 @@ def norm(v: Any) -> Optional[int]:
     return int(v)
 
 
-def cq_env(ids: Dict[str, int], cols: Dict[str, List[Any]]) -> str:
-    return cq_list(f"({cq_nat(ids[k])}, {cq_col([norm(x) for x in v])})" for k, v in cols.items())
+def cq_src(ids: Dict[Tuple[str, Optional[str]], int], root: Dict[str, Any]) -> str:
+    items = []
+    for (name, opt), i in ids.items():
+        cols = root["cols_by_opt"][opt] if (opt is not None and root.get("cols_by_opt")) else root["cols"]
+        if name in cols:
+            items.append(f"({cq_nat(i)}, {cq_col([norm(x) for x in cols[name]])})")
+    return cq_list(items)
 
 
-def cq_defs(ids: Dict[str, int], spec: Dict[str, Any], only: Optional[List[str]] = None) -> str:
+def cq_defs(ids: Dict[Tuple[str, Optional[str]], int], spec: Dict[str, Any], only: Optional[List[Tuple[str, Optional[str]]]] = None) -> str:
+    defs = {n: d for g in spec["groups"] if g["kind"] == "derived" for n, d in g["features"].items()}
     out = []
-    for g in spec["groups"]:
-        if g["kind"] == "derived":
-            for n, d in g["features"].items():
-                if only is not None and n not in only:
-                    continue
-                out.append(f"{{| fname := {cq_nat(ids[n])}; inputs := {cq_list(cq_nat(ids[i]) for i in d['inputs'])}; "
-                           f"c0 := {cq_z(d['c0'])}; coefs := {cq_list(cq_z(c) for c in d['coefs'])} |}}")
+    for (name, opt), i in ids.items():
+        if name not in defs or (only is not None and (name, opt) not in only):
+            continue
+        d = defs[name]
+        out.append(f"{{| fname := {cq_nat(i)}; inputs := {cq_list(cq_nat(ids[(x, opt)]) for x in d['inputs'])}; "
+                   f"c0 := {cq_z(d['c0'])}; coefs := {cq_list(cq_z(c) for c in d['coefs'])} |}}")
     return cq_list(out)
 
 
 def gen(rng: random.Random) -> Dict[str, Any]:
+    if rng.random() < 0.2:
+        return daggen.gen_option_groups(rng)
     spec = daggen.gen_single_root(rng, n_rows=rng.randrange(1, 5))
     root = spec["groups"][0]
     for k, v in root["cols"].items():
@@ -108,7 +142,7 @@ def gen(rng: random.Random) -> Dict[str, Any]:
 
 
 def one(spec: Dict[str, Any]) -> Dict[str, Any]:
-    ids = number_features(spec)
+    ids, req_opt = instances(spec)
     root = spec["groups"][0]
     n = len(next(iter(root["cols"].values())))
     gl = GateListener()
@@ -127,13 +161,13 @@ def one(spec: Dict[str, Any]) -> Dict[str, Any]:
     obs: List[Tuple[int, List[Optional[int]]]] = []
     bad_shape = None
     if o["status"] == "ok":
-        requested = [r if isinstance(r, str) else r["name"] for r in spec["request"]]
+        requested = [r_ if isinstance(r_, str) else r_["name"] for r_ in spec["request"]]
         seen: Dict[str, int] = {}
         for t in o["result"]:
             for c in columns_of(t):
                 seen[c] = seen.get(c, 0) + 1
                 try:
-                    obs.append((ids.get(c, 999), [norm(v) for v in column_values(t, c)]))
+                    obs.append((ids.get((c, req_opt.get(c)), 999), [norm(v) for v in column_values(t, c)]))
                 except ValueError as e:
                     bad_shape = f"column {c}: {e}"
         if sorted(seen) != sorted(set(requested)) or any(v != 1 for v in seen.values()):
@@ -151,10 +185,16 @@ def one(spec: Dict[str, Any]) -> Dict[str, Any]:
             continue
         w, reads = foot
         if s["kind"] == "FG":
+            sopt = None
+            for o_ in s.get("opts") or []:
+                for k_, v_ in o_:
+                    if k_ == root.get("opt_key"):
+                        sopt = v_
             if s["group"] == root["name"]:
-                acts.append(f"ARoot {cq_nat(w)} {cq_env(ids, root['cols'])}")
+                sub = {k: v for k, v in ids.items() if k[1] == sopt}
+                acts.append(f"ARoot {cq_nat(w)} {cq_src(sub, root)}")
             else:
-                acts.append(f"ACalc {cq_nat(w)} {cq_defs(ids, spec, only=list(dict.fromkeys(s['names'])))}")
+                acts.append(f"ACalc {cq_nat(w)} {cq_defs(ids, spec, only=[(n_, sopt) for n_ in dict.fromkeys(s['names'])])}")
                 if s["requested"] and o["status"] == "ok":
                     pass
         elif s["kind"] == "TFS":
@@ -196,6 +236,7 @@ def run(rep: vlib.Reporter, tier: str, seed: int) -> None:
         dist["with_tfs"] += any(s["kind"] == "TFS" for s in r["plan"]["steps"])
         dist["api_roots"] += root["kind"] == "api"
         dist["with_nulls"] += any(v is None for c in root["cols"].values() for v in c)
+        dist["option_groups"] = dist.get("option_groups", 0) + bool(root.get("cols_by_opt"))
         g = len(spec["groups"])
         dist["groups_hist"][g] = dist["groups_hist"].get(g, 0) + 1
         kf = bool(kf_tfs_partial_requirement(r["plan"]) or kf_framework_roundtrip(r["plan"]) or kf_tfs_missing(r["plan"]))
@@ -203,7 +244,7 @@ def run(rep: vlib.Reporter, tier: str, seed: int) -> None:
         r["kf"] = kf
         if g >= 3:
             rep.nontrivial(("spec", spec))
-        head = f"({cq_nat(r['n'])}, {cq_env(ids, root['cols'])}, {cq_defs(ids, spec)}"
+        head = f"({cq_nat(r['n'])}, {cq_src(ids, root)}, {cq_defs(ids, spec)}"
         if r["status"] == "ok":
             val_idx.append(i)
             val_terms.append(f"({head}), {cq_list('(' + cq_nat(f) + ', ' + cq_col(c) + ')' for f, c in r['obs'])})")
